@@ -118,9 +118,10 @@ class Check:
             if k.get("property") == self.pid and k.get("status", "open") == "open" and k.get("signature") == signature:
                 self.confirmed.append(dict(signature=signature, what=what, known=True))
                 return
-        os.makedirs(os.path.join(VERIF, "replays"), exist_ok=True)
+        rdir = os.environ.get("SYMX_REPLAY_DIR", os.path.join(VERIF, "replays"))
+        os.makedirs(rdir, exist_ok=True)
         n = len([c for c in self.confirmed if not c.get("known")])
-        path = os.path.join(VERIF, "replays", "%s-%d.json" % (self.pid, n))
+        path = os.path.join(rdir, "%s-%d.json" % (self.pid, n))
         with open(path, "w") as f:
             json.dump(dict(property=self.pid, signature=signature, what=what, payload=payload,
                            rerun="cd %s && ./check --replay %s" % (VERIF, path)), f, indent=1)
@@ -172,8 +173,9 @@ class Check:
         ev = dict(property_id=self.pid, tier=self.tier if self.tier in ("quick", "thorough") else "quick",
                   seed=self.seed, level="model_checking", coverage=cov, assumptions=self.assumptions,
                   wall_s=round(wall, 2), violations=len(new))
-        os.makedirs(os.path.join(VERIF, "evidence"), exist_ok=True)
-        with open(os.path.join(VERIF, "evidence", self.pid + ".json"), "w") as f:
+        edir = os.environ.get("SYMX_EVIDENCE_DIR", os.path.join(VERIF, "evidence"))
+        os.makedirs(edir, exist_ok=True)
+        with open(os.path.join(edir, self.pid + ".json"), "w") as f:
             json.dump(ev, f, indent=1, default=str)
         for k in known:
             print("KNOWN-FINDING: property=%s %s" % (self.pid, k["what"]))
